@@ -9,30 +9,29 @@
 #include <wchar.h>
 
 #ifndef NMAX
-#define NMAX 1000000 /* element count bound of the harness allocation only; the loops are closed by invariants */
+#define NMAX 1000000 /* largest buffer the harness allocates, in elements; the loops are closed by invariants */
 #endif
 
 struct Datatype g_other_dt; /* stands for every datatype that no operator knows (MPI_PACKED, MPI_CXX_BOOL, derived...) */
 struct Datatype g_dup;      /* a duplicate (MPI_Type_dup) of the base datatype */
 struct Datatype* g_base;    /* the basic datatype the reduction runs on */
 struct Datatype* g_dtp;     /* the datatype argument: g_base or its duplicate */
-void *g_a, *g_b, *g_b0;     /* invec, inoutvec, copy of the initial inoutvec */
+void *g_a, *g_b;           /* invec, inoutvec: the typed buffers (generated below) of the datatype under test */
 int g_len, g_n;
+size_t g_cap;              /* elements allocated in each buffer (>= n: the elements beyond n must stay untouched) */
 size_t g_nbytes;
 size_t gk; /* ghost element index */
-size_t gb; /* ghost byte index */
+size_t gb; /* ghost byte index (MPI_REPLACE) */
+size_t nondet_size(void);
+static void setup(struct Datatype* base, int through_a_duplicate);
 
 #define OP_PRE                                                                                                         \
-  (a == g_a && b == g_b && length == &g_len && datatype == &g_dtp && g_len == g_n && 0 <= g_n && g_n <= NMAX &&        \
+  (a == g_a && b == g_b && length == &g_len && datatype == &g_dtp && g_len == g_n && 0 <= g_n && (size_t)g_n <= g_cap &&        \
    vf_exc == 0 && IS_BASE(g_base) && BASES_NOT_DUP && g_dup.duplicated_datatype_ == g_base &&                          \
    (g_dtp == g_base || g_dtp == &g_dup) && g_nbytes == (size_t)g_n * ELEM_SIZE(g_base))
 
-/* loop 0 of every operator: follow duplicated_datatype() down to the basic datatype (chain of length <= 1 here) */
-#define VF_DUP_LOOP                                                                                                    \
-  __CPROVER_assigns(datatype_base)                                                                                     \
-  __CPROVER_loop_invariant(datatype_base == g_base || (datatype_base == &g_dup && g_dtp == &g_dup))                   \
-  __CPROVER_decreases(datatype_base == &g_dup && g_base != &g_dup ? 1 : 0)
-
+/* loop 0 of every operator follows duplicated_datatype() down to the basic datatype: the harness builds chains of
+ * length 0 and 1, the loop is unwound 3 times with an unwinding assertion (check.json "unwindset") */
 /*@@GENERATED_MACROS@@*/
 /* assumed callee: size() of a basic datatype or of its duplicate = sizeof the registered C type */
 size_t Datatype__size(struct Datatype* self) __CPROVER_requires(self == g_dtp) __CPROVER_assigns()
